@@ -1100,6 +1100,7 @@ func (f *fnState) makeSlice(i *ssa.MakeSlice) {
 }
 
 func (f *fnState) meterAlloc(bytes string) {
+	f.set("G$lastalloc", SV{Sort: sInt, T: f.define("lastalloc", sInt, bytes)})
 	a := f.get(f.cur, "G$alloc", sInt).T
 	f.set("G$alloc", SV{Sort: sInt, T: f.define("alloc", sInt, fmt.Sprintf("(+ %s %s)", a, bytes))})
 }
